@@ -3,6 +3,7 @@ import PGM.Properties.C17G
 import PGM.Properties.C16G
 import PGM.Proofs.LocalE2E
 import PGM.Proofs.LocalE2EShape
+import PGM.Proofs.GradLaid
 /-!
 # C18 (end to end) — the generated `LocalInference` run on the generated oracles returns valid tables
 
@@ -1018,5 +1019,30 @@ example : (∀ c ∈ exCliques, PGM.Convex.RegOK exDom c) ∧ Disjoint exCliques
   rcases hc with rfl | rfl <;> exact ⟨by decide, by decide⟩
 
 end examples
+
+/-! ## 4. `hgrad` for the generated `_marginal_loss` of `LocalInference`: the loss half
+
+For `LocalInference`'s generated copies of `_marginal_loss` (py2local, C18G `gen_marginalLossL2` / `L1`): marginals laid out
+on a duplicate-free clique list give a gradient laid out on it — for every scalar type and ARBITRARY measurements.  This
+reduces the `hgrad` hypothesis of section 2 to the layout of the ORACLE's answer (`Laid dom cliques mu`), which `TablesOn` /
+`NormalisedOn` do not record (they speak of the cell values only): with these predicates as the `Q` of `Keeps`, `hgrad` cannot
+be discharged for the generated loss.  Carrying `Laid` of the marginals through the three oracles needs an invariant on the
+DOMAINS of the persisted messages (`RGInv` / `FGInv` record positivity only); for `'convex'` the marginals — hence the
+gradient — are keyed by `g.regions`, not by `g.cliques`, so there the gradient can only be laid out `get`-wise.  NOT proved
+here (open). -/
+section lossHalf
+variable {α : Type} [Scalar α]
+
+theorem gen_local_lossL2_laid (d : Dom) (cliques cl' : List Clique) (hcn : cliques.Nodup) (meas : List (Loss.Meas α))
+    (mu : CliqueVec α) (hmu : Laid d cliques mu) : Laid d cliques (LocalG.marginalLossL2 d cl' meas mu).2 := by
+  rw [gen_marginalLossL2 d cl' meas mu (hmu.1 ▸ hcn) (fun p hp => (hmu.2 p hp).2)]
+  exact GradLaid.marginalLoss_laid d d cliques cl' meas mu hmu
+
+theorem gen_local_lossL1_laid (d : Dom) (cliques cl' : List Clique) (hcn : cliques.Nodup) (meas : List (Loss.Meas α))
+    (mu : CliqueVec α) (hmu : Laid d cliques mu) : Laid d cliques (LocalG.marginalLossL1 d cl' meas mu).2 := by
+  rw [gen_marginalLossL1 d cl' meas mu (hmu.1 ▸ hcn) (fun p hp => (hmu.2 p hp).2)]
+  exact GradLaid.marginalLossL1_laid d d cliques cl' meas mu hmu
+
+end lossHalf
 
 end PGM.C18E
